@@ -21,6 +21,9 @@ type Layout struct {
 	Trailing        bool `json:"trailing,omitempty"` // blanks/tabs after ';'
 	CRLF            bool `json:"crlf,omitempty"`
 	NoFinalNewline  bool `json:"nofinal,omitempty"`
+	// PadLast > 0 (with NoFinalNewline): blanks after the last ';' bring the length of the last
+	// line to the next multiple of PadLast (a line that fills the reader's buffer exactly)
+	PadLast int `json:"pad_last,omitempty"`
 }
 
 // MultiNewick lays out the trees one record per ';' at a line end.
@@ -61,6 +64,13 @@ func MultiNewick(ms []*ref.Node, l Layout) string {
 			b.WriteString(" \t ")
 		}
 		last := i == len(ms)-1
+		if last && l.NoFinalNewline && l.PadLast > 0 {
+			text := b.String()
+			lineLen := len(text) - (strings.LastIndex(text, "\n") + 1)
+			if pad := (l.PadLast - lineLen%l.PadLast) % l.PadLast; pad > 0 {
+				b.WriteString(strings.Repeat(" ", pad))
+			}
+		}
 		if !(last && l.NoFinalNewline) {
 			b.WriteString(nl)
 		}
